@@ -503,10 +503,15 @@ class Worker:
         if not isinstance(future, RuntimeFuture):
             raise RuntimeError('Can only await on a BQSKit RuntimeFuture.')
 
-        if future.mailbox_id not in self._mailboxes:
-            raise RuntimeError('Cannot await on a canceled task.')
+        box = self._mailboxes.get(future.mailbox_id)
 
-        box = self._mailboxes[future.mailbox_id]
+        if box is None:
+            if task.return_address not in self._tasks:
+                # The incoming thread cancelled this very task (and dropped
+                # its mailboxes) after its step finished; nothing to await.
+                self._release_cancelled_task(task)
+                return
+            raise RuntimeError('Cannot await on a canceled task.')
 
         with self.mailbox_mutex:
             # Let the mailbox know this task is waiting
